@@ -62,7 +62,7 @@ def answer (ws : List String) : Option String :=
   | ["unbind", h] => do pure (renderOpt (unbind (← str? h)))
   | ["punbind", h] => do pure (renderOpt (unbind (← str? h)))
   | [op, h] =>
-    -- (*WFN).UnmarshalText / Scan on the zero name: empty input leaves it alone
+    -- (*WFN).UnmarshalText / Scan on the zero name: empty input gives / leaves the zero name
     if op == "unmarshal" || op == "scan" || op == "scanstr" then do
       pure (renderOpt (unmarshalText (List.replicate 11 unsetValue) (← str? h)))
     else if op == "punbindfs" then do pure (renderOpt (unbindFS (← str? h)))
@@ -83,7 +83,7 @@ def answer (ws : List String) : Option String :=
     -- the specification's bind_to_URI (the package has no URI binder): the Lean and the Go reading agree
     pure (hexStr (ClairModel.CpeSpec.bindURI ((← wfn? toks).map fun a => (a.kind, a.v))))
   | "unmarshal2" :: h :: toks => do pure (renderOpt (unmarshalText (← wfn? toks) (← str? h)))
-  | "scan2" :: h :: toks => do pure (renderOpt (unmarshalText (← wfn? toks) (← str? h)))
+  | "scan2" :: h :: toks => do pure (renderOpt (scanText (← wfn? toks) (← str? h)))
   | "cmp" :: toks => do
     let a ← wfn? (toks.take 11)
     let b ← wfn? (toks.drop 11)
